@@ -190,8 +190,8 @@ From MD Require Import Lemmas.NoRaise Lemmas.MapOrder Lemmas.Cover.
 
 (* For EVERY source, env and configuration with the paragraph rule (terminator chains as the Ruler compiles them,
    0 < maxNesting): what ParserBlock.parse appends is a sequence of segments, one per successful rule call, over line
-   ranges [a, b) that increase and do not overlap and contain every map of their tokens (cseg implies oseg), and every
-   line BEFORE the first range, BETWEEN two ranges and AFTER the last one up to lineMax is blank for the line tables
+   ranges [a, b) that increase and do not overlap, START ON A NON-BLANK LINE and contain every map of their tokens
+   (cseg implies oseg), and every line BEFORE the first range, BETWEEN two ranges and AFTER the last one up to lineMax is blank for the line tables
    of the source ([blank]: StateBlock.isEmpty does not answer False).  The segment of a reference definition is
    empty: its lines are covered by the range of the call that recorded it in env. *)
 Theorem C03_block_parse_covers :
@@ -219,6 +219,6 @@ Print Assumptions C03_covered_is_ordered.
 Definition C03_cover_means :
   (forall st l, blank st l <-> is_empty st l <> Ok false)
   /\ (forall (B : Z -> Prop) lo hi, lo <= hi -> (forall l, lo <= l < hi -> B l) -> cseg B lo hi [])
-  /\ (forall (B : Z -> Prop) lo hi a b seg rest, lo <= a -> a < b -> (forall l, lo <= l < a -> B l) -> Forall (map_in a b) seg ->
+  /\ (forall (B : Z -> Prop) lo hi a b seg rest, lo <= a -> a < b -> (forall l, lo <= l < a -> B l) -> ~ B a -> Forall (map_in a b) seg ->
         cseg B b hi rest -> cseg B lo hi (seg ++ rest))
   := conj (fun st l => conj (fun x => x) (fun x => x)) (conj cseg_nil cseg_cons).
